@@ -32,6 +32,7 @@ type conn struct {
 	counter  int32
 	onClose  func(*websocket.Conn)
 	once     sync.Once
+	cancel   context.CancelFunc
 }
 
 func dial(ctx context.Context) (*websocket.Conn, error) {
@@ -228,6 +229,10 @@ func (c *conn) Close(err error) {
 	c.once.Do(func() {
 		c.onClose(c.Conn)
 		_ = c.Conn.Close()
+		if c.cancel != nil {
+			// stops the Send goroutine also when the transport no longer lists this connection (Abort)
+			c.cancel()
+		}
 	})
 	verifPoint("close.beforeClean")
 	c.rangeAndClean(func(index int, resultChan chan data) {
@@ -266,6 +271,7 @@ func (trans *Transport) getConn(ctx context.Context) (conn *conn, err error) {
 	}
 	trans.conns[key] = conn
 	ctx, cancel := context.WithCancel(context.Background())
+	conn.cancel = cancel
 	onExit := func() {
 		trans.lock.Lock()
 		if trans.conns[key] == conn {
